@@ -738,6 +738,7 @@ class Interp(object):
             if hook is not None:
                 hook()          # what follows in this thread is the recorder's finalisation of the operation
         res = {'obs': obs}
+        res.update(getattr(svc.spec.op, 'result_extra', None) or {})      # extra members of the operation's result (C18)
         svc.last_result = res
         return res
 
